@@ -31,6 +31,24 @@ def error_class(desc):
     return first[:60]
 
 
+OUT_OF_REGISTERS = re.compile(r"(?i)\bout of registers\b|\b(not enough|too many|no free|no more) registers\b")
+
+
+def out_of_registers(desc):
+    """the documented register-exhaustion rejection (today: 'Running out of registers, try to simplify your code.'),
+    recognised by its meaning rather than by its exact wording"""
+    return bool(OUT_OF_REGISTERS.search(desc or ""))
+
+
+HELPER_TIMEOUT = re.compile(r"(?i)\btime[ -]?out\b|\btimed out\b")
+
+
+def helper_timeout(desc):
+    """the transpiler's report that its constexpr helper process ran into the time limit (today: 'Timeout during
+    evaluating constexpr function call ..'), recognised by meaning"""
+    return bool(HELPER_TIMEOUT.search(desc or ""))
+
+
 def compile_case(srcs, opts):
     return repo.compile_src(srcs, opts)
 
